@@ -58,15 +58,34 @@ func fromRecord(r *kgo.Record) []hdr {
 	return out
 }
 
-func toRecord(hs []hdr, spare int) *kgo.Record {
+func toRecord(hs []hdr, spare int) *kgo.Record { return toRecordLayout(hs, spare, false) }
+
+// toRecordLayout builds the record; with shared, every header value is a sub-slice of one
+// buffer, back to back, each with the capacity that plain slicing gives it (up to the end of
+// the buffer). That is the layout of a fetched record, whose header values point into the
+// decoded batch.
+func toRecordLayout(hs []hdr, spare int, shared bool) *kgo.Record {
 	r := &kgo.Record{}
 	if hs != nil || spare > 0 {
 		r.Headers = make([]kgo.RecordHeader, 0, len(hs)+spare)
 	}
+	var buf []byte
+	if shared {
+		for _, h := range hs {
+			buf = append(buf, h.V...)
+		}
+		buf = append(buf, "tail-of-the-batch-buffer"...)
+	}
+	off := 0
 	for _, h := range hs {
 		var v []byte
 		if h.V != nil {
-			v = append([]byte{}, h.V...)
+			if shared {
+				v = buf[off : off+len(h.V)]
+				off += len(h.V)
+			} else {
+				v = append([]byte{}, h.V...)
+			}
 		}
 		r.Headers = append(r.Headers, kgo.RecordHeader{Key: h.K, Value: v})
 	}
@@ -225,9 +244,18 @@ func dupKeys(hs []hdr) bool {
 func TestCarrierModel(t *testing.T) {
 	rapid.Check(t, func(t *rapid.T) {
 		init := genHeaders(t, 6)
-		rec := toRecord(init, rapid.IntRange(0, 3).Draw(t, "spareCap"))
+		shared := rapid.Bool().Draw(t, "valuesShareOneBuffer")
+		rec := toRecordLayout(init, rapid.IntRange(0, 3).Draw(t, "spareCap"), shared)
+		// a second record made from the first by copying the header list (the values are shared,
+		// as in a fan-out that forwards one consumed record to several topics): a Set on the first
+		// record replaces ITS value for the key and must leave the bytes others still point to alone
+		sibling := append([]kgo.RecordHeader(nil), rec.Headers...)
+		siblingWant := fromRecord(rec)
 		c := kotel.NewRecordCarrier(rec)
 		model := fromRecord(rec)
+		if shared {
+			ev.Class("header_values_share_one_buffer")
+		}
 		nt := dupKeys(init)
 		nops := rapid.IntRange(1, 12).Draw(t, "nops")
 		var trace []string
@@ -287,6 +315,11 @@ func TestCarrierModel(t *testing.T) {
 					}
 				}
 				ev.Class("keys")
+			}
+			for j, h := range sibling {
+				if h.Key != siblingWant[j].K || string(h.Value) != string(siblingWant[j].V) {
+					t.Fatalf("headers %s (values sharing one buffer: %v), ops %v: header %d of a second record that shares the first record's original header values changed from %q=%q to %q=%q", show(init), shared, trace, j, siblingWant[j].K, siblingWant[j].V, h.Key, h.Value)
+				}
 			}
 			// a read never changes the record
 			if now := fromRecord(rec); checkSets(model, now, nil) != "" {
